@@ -215,6 +215,11 @@ def mon_C11(run):
                 want = (cur_max, len(row["live"]), len(idle) if idle is not None else avail, blocked)
                 if (mx, size, avail, waiting) != want:
                     bad.append((k, f"status() at rest = (max_size {mx}, size {size}, available {avail}, waiting {waiting}) but ground truth is {want}"))
+        # size exceeds max_size only as the residue of a shrink: never by creating a new object
+        if row["action"].startswith("step") and prev_labels.get(i, ("", False))[0] == "create.size" \
+                and d["lbl"] != "create.size" and d["size"] != "?" and d["max"] != "?" and d["closed"] == "0":
+            if int(d["size"]) > int(d["max"]):
+                bad.append((k, f"get #{i} created a new object although the pool was full: size {d['size']} > max_size {d['max']} (not the residue of a shrink)", "create-over-max"))
         prev_labels[i] = (d["lbl"], d["susp"] == "1")
         if bad:
             return bad[:1]
@@ -1383,6 +1388,8 @@ def signature(prop, run, model_lines, diverged, k, msg, kind):
     m = parse_obs(model_lines[k]) if model_lines[k].startswith("obs ") else {}
     debt = int(m.get("debt", "0") or 0)
     if prop == "C07" and kind in ("over-limit", "capacity") and debt > 0:
+        return "shrink-undercollect"
+    if prop == "C11" and kind == "create-over-max" and debt > 0:
         return "shrink-undercollect"
     if prop == "C06" and kind in ("max-after-close", "kept-returned", "idle-retained"):
         tl = resize_timeline(run)
